@@ -170,6 +170,23 @@ var datasetUnit = transUnit{Dir: "dataset", File: "CodeDataset", NS: "DDS.Gen.Da
 // hand-written model and the correspondence run)
 var denseUnit = transUnit{Dir: "ddsketch/store", File: "CodeDense", NS: "DDS.Gen.Dense", Mode: "rat",
 	F64Funcs: map[string]bool{"DenseStore.getNewLength": true},
+	Imports:  []string{"DDS.Generated.CodeEncoding"},
+	ExternTypes: map[string]string{"encoding.SubFlag": "DDS.Gen.Encoding.SubFlag", "encoding.Flag": "DDS.Gen.Encoding.Flag",
+		"encoding.FlagType": "DDS.Gen.Encoding.FlagType"},
+	ExternVars: map[string]string{
+		"encoding.BinEncodingIndexDeltasAndCounts": "DDS.Gen.Encoding.BinEncodingIndexDeltasAndCounts",
+		"encoding.BinEncodingIndexDeltas":          "DDS.Gen.Encoding.BinEncodingIndexDeltas",
+		"encoding.BinEncodingContiguousCounts":     "DDS.Gen.Encoding.BinEncodingContiguousCounts"},
+	ExternFuncs: map[string]externFn{
+		"encoding.NewFlag":          {Lean: "DDS.Gen.Encoding.NewFlag"},
+		"encoding.EncodeFlag":       {Lean: "DDS.Gen.Encoding.EncodeFlag", MutParams: []int{0}},
+		"encoding.EncodeUvarint64":  {Lean: "DDS.Gen.Encoding.EncodeUvarint64", Res: true, MutParams: []int{0}},
+		"encoding.EncodeVarint64":   {Lean: "DDS.Gen.Encoding.EncodeVarint64", Res: true, MutParams: []int{0}},
+		"encoding.EncodeVarfloat64": {Lean: "DDS.Gen.Encoding.EncodeVarfloat64", Res: true, MutParams: []int{0}},
+		"encoding.Uvarint64Size":    {Lean: "DDS.Gen.Encoding.Uvarint64Size", Res: true},
+		"encoding.Varint64Size":     {Lean: "DDS.Gen.Encoding.Varint64Size", Res: true},
+		"encoding.Varfloat64Size":   {Lean: "DDS.Gen.Encoding.Varfloat64Size", Res: true},
+	},
 	Specialise: map[string]map[string]string{
 		"DenseStore.MergeWith":                  {"other": "DenseStore"},
 		"CollapsingLowestDenseStore.MergeWith":  {"other": "CollapsingLowestDenseStore"},
@@ -183,6 +200,7 @@ var denseUnit = transUnit{Dir: "ddsketch/store", File: "CodeDense", NS: "DDS.Gen
 		"DenseStore.adjust", "DenseStore.extendRange", "DenseStore.normalize", "DenseStore.AddWithCount",
 		"DenseStore.Add", "DenseStore.AddBin", "DenseStore.KeyAtRank", "DenseStore.MergeWith", "DenseStore.Copy",
 		"DenseStore.Clear", "DenseStore.Reweight",
+		"DenseStore.encodeDensely", "DenseStore.encodeSparsely", "DenseStore.Encode",
 		"NewCollapsingLowestDenseStore", "CollapsingLowestDenseStore.getNewLength", "CollapsingLowestDenseStore.adjust",
 		"CollapsingLowestDenseStore.extendRange", "CollapsingLowestDenseStore.normalize",
 		"CollapsingLowestDenseStore.AddWithCount", "CollapsingLowestDenseStore.Add", "CollapsingLowestDenseStore.AddBin",
@@ -1248,7 +1266,11 @@ func (t *tr) callee(x *ast.CallExpr, c *ectx) (*funcInfo, []string) {
 		args = append(args, recvArg)
 	}
 	for _, a := range x.Args {
-		args = append(args, t.expr(a, c))
+		v := t.expr(a, c)
+		if fi.extern && t.rat() && isFloat(t.typeOf(a)) {
+			v = "(F64.fin " + v + ")" // an exact weight handed to code of another package that computes on float64
+		}
+		args = append(args, v)
 	}
 	return fi, args
 }
